@@ -519,7 +519,7 @@ fn main() {
 			continue; // converters: C17
 		}
 		let params: Vec<Params> = match sp.par {
-			ParKind::N => [2usize, 3, 14].iter().filter(|n| **n as u32 >= sp.min_len.max(1)).map(|n| Params::N(*n as PeriodType)).collect(),
+			ParKind::N => [2usize, 3, 14, 33, 100].iter().filter(|n| **n as u32 >= sp.min_len.max(1)).map(|n| Params::N(*n as PeriodType)).collect(),
 			ParKind::NN => vec![Params::NN(2, 2), Params::NN(3, 10)],
 			ParKind::Weights => vec![Params::W(vec![1.0, 2.0, 3.0])],
 			ParKind::Unit => vec![Params::Unit],
